@@ -1,3 +1,4 @@
+import math
 from datetime import timedelta
 from typing import Any, Optional, Union
 
@@ -861,7 +862,8 @@ class Project(MessageHandler):
         except AttributeError:
             diff_seconds = float(date - self.attributes["start"])
 
-        idx: int = int(diff_seconds / self.attributes["scheduleGranularity"])
+        # floor, not truncation: a date just before the project start lies in slot -1
+        idx: int = math.floor(diff_seconds / self.attributes["scheduleGranularity"])
         return idx
 
     def idxToDate(self, idx: int) -> Optional[Any]:
